@@ -175,7 +175,11 @@ int main(void)
     if (differing && NR >= 3) VWITNESS("star: destination sets differ");
 #else
     if (hops2) VWITNESS("a destination was reached through a forwarding rank");
+#if !defined(RELAY_STAR_FALLBACK)
     if (hops2 && differing) VWITNESS("relay with differing destination sets");
+#else
+    if (differing) VWITNESS("differing destination sets (served by the root)");
+#endif
 #endif
     return 0;
 }
